@@ -30,6 +30,13 @@ Theorem C16_refuted_router_assert_minimum_receive_unrestricted :
 Proof. exact refuted_router_assert_minimum_receive_unrestricted. Qed.
 Theorem C16_full_statement_refuted : ~ C16_full_statement.
 Proof. intro H. specialize (H Router "AssertMinimumReceive" Self eq_refl). discriminate H. Qed.
+(* second known finding (router_routes_open_without_wasm_admin): the router's owner is its WASM ADMIN; deployed without one
+   (phase 3) route management is open to every caller, while with an admin only the admin passes *)
+Theorem C16_refuted_router_routes_open_without_wasm_admin :
+  property_role Router "AddSwapRoutes" = Some Owner /\ property_role Router "RemoveSwapRoutes" = Some Owner /\
+  (forall who cmp, decide Router "AddSwapRoutes" 3 who cmp = 0 /\ decide Router "RemoveSwapRoutes" 3 who cmp = 0) /\
+  (forall who cmp, who <> CAdmin -> decide Router "AddSwapRoutes" 0 who cmp = 1).
+Proof. exact refuted_router_routes_open_without_wasm_admin. Qed.
 (* ... and holds for everything else *)
 Theorem C16_behaviour_meets_property : forall c v r,
   property_role c v = Some r -> known_amr c v = false -> required_role c v = Some r.
@@ -46,7 +53,7 @@ Proof. exact change_implies_authorized. Qed.
 
 (* owner-only variants are accepted from exactly the owner of that phase; self-only ones from exactly the contract itself *)
 Theorem C16_owner_variants_decided_by_ownership : forall c v phase who cmp,
-  required_role c v = Some Owner -> (decide c v phase who cmp = 0 <-> who = owner_at c phase).
+  required_role c v = Some Owner -> no_admin c phase = false -> (decide c v phase who cmp = 0 <-> who = owner_at c phase).
 Proof. exact owner_variants_decided_by_ownership. Qed.
 Theorem C16_self_variants_only_self : forall c v phase who cmp,
   required_role c v = Some Self -> (decide c v phase who cmp = 0 <-> who = CSelf).
@@ -100,6 +107,7 @@ Print Assumptions C16_hooks_classified.
 Print Assumptions C16_classified_only_existing.
 Print Assumptions C16_refuted_router_assert_minimum_receive_unrestricted.
 Print Assumptions C16_full_statement_refuted.
+Print Assumptions C16_refuted_router_routes_open_without_wasm_admin.
 Print Assumptions C16_behaviour_meets_property.
 Print Assumptions C16_unauth_rejected_frame.
 Print Assumptions C16_change_implies_authorized.
